@@ -257,6 +257,7 @@ def formatArg (c : ClsDesc) (a : Arg) : Arg :=
   match c.cname with
   | "Alt" => if (paramsOf c).contains (upper a.str) then { a with content := .str (upper a.str) } else a
   | "Ctrl" => a      -- `arg if arg not in parameters else arg.upper()` changes nothing
+  | "FlipperAltChar" => { a with content := .str (strip a.str) }     -- the `fix:`: the code that was checked is the code emitted
   | _ => a
 
 /-- `SimpleCommand.run_compile` -/
